@@ -1212,7 +1212,12 @@ pub(super) fn check_retx(k: &mut Kernel) {
                     | TcpState::Closing
                     | TcpState::LastAck
             ) && tcb.snd_una != tcb.snd_nxt;
-            if handshake || data || zero_window_blocked(tcb) {
+            // An orphan in FinWait2 (handle dropped, our FIN ACKed) has
+            // nothing left to retransmit. If the peer's FIN or RST never
+            // arrives it would stay forever, so it gets the budget of one
+            // full retransmit cycle (Linux: tcp_fin_timeout).
+            let orphan_fin_wait2 = st.fd_closed && tcb.state == TcpState::FinWait2;
+            if handshake || data || zero_window_blocked(tcb) || orphan_fin_wait2 {
                 Some(fd)
             } else {
                 None
@@ -1226,6 +1231,14 @@ pub(super) fn check_retx(k: &mut Kernel) {
     for fd in candidates {
         let tcb = k.sockets.get_mut(fd).unwrap().tcb.as_mut().unwrap();
         tcb.egress_since_ack += 1;
+        if tcb.state == TcpState::FinWait2 {
+            // Orphan (see above): nothing to re-send, just give up
+            // after threshold * (max + 1) silent passes.
+            if tcb.egress_since_ack >= threshold.max(1).saturating_mul(max.saturating_add(1)) {
+                abort.push(fd);
+            }
+            continue;
+        }
         if tcb.egress_since_ack < threshold {
             continue;
         }
